@@ -261,6 +261,12 @@ def run(chk):
         chk.extended('HOD chunking tiles the slab files', not [p for p in problems if not p.startswith('observation')], '; '.join(problems))
     except Exception as e:  # noqa
         chk.extended('HOD chunking tiles the slab files', False, f'{type(e).__name__}: {e}')
+    # ---- extended coverage (beyond C12): the writer of these slab files — prepare_sim.prepare_slab (spec/PrepareSim.tla)
+    try:
+        import prepsim
+        prepsim.run(chk)
+    except Exception as e:  # noqa
+        chk.extended('prepare_sim.prepare_slab: subsample compaction, npstartA/npoutA re-basing and the hand-over to AbacusHOD staging', False, f'not evaluated: {type(e).__name__}: {str(e)[:300]}')
     chk.part('staging_runs', runs=nrun, unsorted_arrangements=nontriv)
     chk.add_cases(nrun, nontrivial=nontriv, traces=nrun)
 
